@@ -21,7 +21,8 @@ for it in range(N):
     st.setup(t.data); st.adjust(t.initial_capital); st.update(t.dates[0]); st.update(t.dates[1])
     ok_all = True
     for step in range(3):
-        k = int(rs.randint(1, 4)); sel = list(rs.choice(names, size=k, replace=False)); w = randw(k, bool(rs.randint(2)))
+        k = int(rs.randint(0 if step else 1, 4))      # after the first step also an EMPTY target vector: everything is closed
+        sel = list(rs.choice(names, size=k, replace=False)) if k else []; w = randw(k, bool(rs.randint(2))) if k else np.array([])
         cash = float(rs.choice([0.0, 0.0, round(float(rs.uniform(0.05, 0.6)), 2)]))
         st.temp = {"weights": dict(zip(sel, map(float, w)))}
         if cash: st.temp["cash"] = cash
